@@ -100,7 +100,10 @@ def run(c):
         "process exit, restart on the same spool; a Commit that returns an error is recorded as NACK (token `N`, no step of the model); "
         "the retry schedule (`W<initial_retry_time us>,<retry_time_scale x100>,<post-init delay us>`): a third of all scenarios / hand-made directories / backlogs / big cases run — every "
         "segment, the first run and all restarts — under a production-shaped schedule scaled down to milliseconds (initial 0.5-3 ms, scale 0.75 / 1 / 1.25 / 1.5 / 2 / 3 / 4, post-init delay 0-3 ms) "
-        "instead of the test helpers' 0 / 1 / 0; in every run the harness reads the queue's real time wheel every 2 ms",
+        "instead of the test helpers' 0 / 1 / 0; in every run the harness reads the queue's real time wheel every 2 ms; "
+        "the origin of the accepted mail (`Y<k>`): a third of the real-run scenarios start their transactions with the MsgMetadata an endpoint of a running server produces — connection state with "
+        "TCP (IPv4 / IPv6 + zone) or unix-socket addresses, HELO name, TLS state, resolved rDNS future, AUTH identity + password, traced or DontTraceSender, or a Conn without addresses — "
+        "instead of the bare record (no Conn, untraced) of the repo's tests",
         explanation="inductive invariant over a small-step model in which every single file-system call is a step and a crash (any loss of un-synced data, any torn write) is possible in "
         "every state, recovery included to any depth; model tied to queue.go by the regenerated call skeleton (T1) and by exhaustive crash-point enumeration on the real code (T2); "
         "independent Go monitor on the real events (accepted-lost / stored-lost: in EVERY recovery run each pending recipient of a complete stored message is attempted and then delivered, "
@@ -119,6 +122,8 @@ def run(c):
         "the retry schedule: retryDelay / retryDue / restartDue mirror the wrapping 64-bit arithmetic of tryDelivery / readDiskQueue with the float power + conversion as a parameter "
         "(C02_restart_due_within_horizon, C02_retry_due_within_horizon, C02_restart_due_not_before_post; the message without any recorded attempt — sentinel tries count, power +Inf — is due "
         "right after the post-init delay under every schedule: C02_no_attempt_yet_due_at_once); monitor retry-never-due: no slot of the real time wheel is due later than the longest delay of "
-        "the configured schedule + 10 minutes (the schedule is in milliseconds); a message that is, is never attempted (accepted-lost)",
+        "the configured schedule + 10 minutes (the schedule is in milliseconds); a message that is, is never attempted (accepted-lost); "
+        "the monitor reads stored meta-data records with its own field-by-field decoder (not the queue's types): a record that names its recipients is a stored message whatever else it "
+        "carries, so a record the next process cannot load (origin data that encodes but does not decode) is a loss (accepted-lost / stored-lost), not an excused garbage file",
         search=search,
     )
